@@ -58,6 +58,11 @@ CHECKS = {
             "Every parent history of <=4 (quick) / <=5 (thorough) ops over {message, answered run, open run, run_ended for the oldest open run, side effects, checkpoint} (so overlapping turns arise) x every selector {none, every from_seq in 0..head, head+1, u64::MAX, every message id, a non-message frame id, unknown uuid, non-uuid, both} x {branch, handoff with summary text / existing artifact / missing artifact / neither}: the parent's log lines must be byte-identical, a success must yield a child that is exactly [created, lineage] at seq 0,1 (next append gets 2) recording the reference cut within the parent and a resolvable summary, a refusal must add no thread and no bytes.",
             "Depth bound; selectors over one parent thread; the router is exercised for status codes only.",
             "DESIGN.md §3 C10"),
+    "C11": ("S", "model_checking",
+            "stateless schedule exploration (engine S) of pairs of real run_session futures sharing the production workspace lock; oracle on the recorded span trace and the log",
+            "Every unordered pair (thorough: plus two triples) of {write a, write b, apply_patch, checkpoint create, read, ls} envelopes runs as real run_session futures linked to one thread on one SessionEngine; all interleavings at workspace-lock / tool-semaphore / guard and handler span / seq-lock / publish hooks with <=1 (quick) / <=2 (thorough) preemptions; at no step may two workspace guards or two mutating tool handlers be open, read-only tools must be able to overlap (vacuity guard), each mutating tool call must have exactly one side-effects frame before its run_ended, and the side-effect frames across runs must be in the order the guards were acquired.",
+            "Tasks (child processes) and the agent-loop tool path are not in this exploration; affected_paths content is not compared; a tool timeout is an input not a schedule: a timed-out tool keeps running after tool_failed (documented limitation, reproduced in round 0, not judged here).",
+            "DESIGN.md §3 C11"),
     "C12": ("H-inputs", "exploration",
             "bounded exhaustive input enumeration (patch documents x workspace states) against a reference map model, real apply_patch on a real directory",
             "Every patch of <=2 ops (<=3 on a reduced set in thorough) over a 4-path / 12-hunk-list alphabet plus 16 malformed envelopes is applied by the real Workspace::apply_patch (and the apply_patch tool) to every enumerated workspace state; success must equal the reference map and name exactly the touched files, failure must leave every byte unchanged.",
